@@ -482,6 +482,60 @@ def _known_for(instance, known):
     return [k for k in known if instance == k["obligation"] or instance.startswith(k["obligation"])]
 
 
+# ---- scheduler with hard limits ------------------------------------------------------------------------------
+
+def _child_main(conn, task):
+    try:
+        r = _worker(task)
+    except BaseException as e:      # noqa: BLE001
+        r = {"instance": task[2], "obligation": task[1], "case": _jsonable_case(task[3]), "verdict": "crash", "reason": f"{type(e).__name__}: {e}"}
+    try:
+        conn.send(r)
+    finally:
+        conn.close()
+        sys.stdout.flush()
+        os._exit(0)
+
+
+def _run_tasks(tasks, jobs, hard_limit_of):
+    """One forked process per obligation instance, at most `jobs` at a time.  A process that outlives its hard limit (a solver call that
+    does not honour its own timeout) is killed and reported as undecided - never as a violation."""
+    from multiprocessing.connection import wait
+    ctx = mp.get_context("fork")
+    pending = list(tasks)
+    running = {}
+    while pending or running:
+        while pending and len(running) < jobs:
+            t = pending.pop(0)
+            rd, wr = ctx.Pipe(duplex=False)
+            p = ctx.Process(target=_child_main, args=(wr, t))
+            p.start()
+            wr.close()
+            running[rd] = (p, t, time.time())
+        ready = wait(list(running), timeout=0.5)
+        now = time.time()
+        for rd in list(running):
+            p, t, t0 = running[rd]
+            if rd in ready:
+                try:
+                    r = rd.recv()
+                except (EOFError, OSError):
+                    r = {"instance": t[2], "obligation": t[1], "case": _jsonable_case(t[3]), "verdict": "crash", "reason": f"worker died (exit code {p.exitcode})"}
+                rd.close()
+                p.join(5)
+                if p.is_alive():
+                    p.kill()
+                del running[rd]
+                yield r
+            elif now - t0 > hard_limit_of(t):
+                p.kill()
+                p.join(5)
+                rd.close()
+                del running[rd]
+                yield {"instance": t[2], "obligation": t[1], "case": _jsonable_case(t[3]), "kind": "?", "verdict": "undecided",
+                       "reason": f"hard time limit of {hard_limit_of(t)} s exceeded (a solver call did not honour its timeout); process killed", "wall_s": round(now - t0, 1)}
+
+
 # ---- main --------------------------------------------------------------------------------------------------
 
 def run_property(prop, tier="quick", seed=0, only=None, jobs=None, write_baseline=False, verbose=False):
@@ -501,13 +555,13 @@ def run_property(prop, tier="quick", seed=0, only=None, jobs=None, write_baselin
             kw = [k["witness"] for k in _known_for(iname, known)]
             tasks.append((prop, o.name, iname, case, tier, seed, kw, "check", None))
     jobs = jobs or min(16, max(1, len(tasks)))
-    ctx = mp.get_context("fork")
+    limits = {o.name: (o.budget or {}).get("wall_s", 240 if tier == "quick" else 900) for o in obls}
+    kinds = {o.name: o.kind for o in obls}
     results = []
-    with ctx.Pool(processes=jobs, maxtasksperchild=1) as pool:
-        for r in pool.imap_unordered(_worker, tasks, chunksize=1):
-            results.append(r)
-            if verbose:
-                print(f"  {r.get('verdict'):14s} {r['instance']}  {r.get('reason', '')}  ({r.get('wall_s')}s)", flush=True)
+    for r in _run_tasks(tasks, jobs, lambda t: 7200 if kinds.get(t[1]) == "B" else 2 * limits.get(t[1], 240) + 180):
+        results.append(r)
+        if verbose:
+            print(f"  {r.get('verdict'):14s} {r['instance']}  {r.get('reason', '')}  ({r.get('wall_s')}s)", flush=True)
     results.sort(key=lambda r: r["instance"])
     return _report(prop, tier, seed, obls, results, known, t_start, write_baseline, only)
 
